@@ -34,12 +34,17 @@ def run(chk):
     os.chmod(hexe, 0o755)
     cases = []
     for k in range(160 if thorough else 24):
-        font = rng.choice(S.FONTS)
+        font = rng.choice(S.FONTS) if k % 4 else rng.choice([f for f in S.FONTS if len(S.pseudos(vlib.REPO, f)) >= 2])
         rep = S.repertoire(vlib.REPO, font)
         texts = []
         for _ in range(rng.choice((2, 4, 8))):
             cps = S.gen_text_seeded(rng, vlib.REPO, font, 10) if rng.random() < 0.6 else S.gen_text(rng, rep, 10)
             texts.append('%s:%d' % (''.join('%08x' % c for c in cps) or '00000041', rng.choice((0, 1, 0, 3))))
+        ps = S.pseudos(vlib.REPO, font)
+        if len(ps) >= 2:                       # characters served by the pseudo-glyph map (a per-face table consulted while shaping)
+            for _ in range(2):
+                cps = [rep[0]] + rng.sample(ps, min(len(ps), rng.randrange(2, 6)))
+                texts.append('%s:%d' % (''.join('%08x' % c for c in cps), rng.choice((0, 1))))
         cases.append('t%d thr %s %d %d %d %s %s' % (k, font, rng.choice((6, 6, 7)), rng.choice((2, 4, 8)), rng.choice((3, 10, 25 if thorough else 10)), rng.choice(('-', '12', '96.5')), ' '.join(texts)))
     _, il, err = vlib.run_pair(None, hexe, cases, timeout=3000, impl_env=TSAN_ENV, shards=8)
     classes, dist = set(), {}
